@@ -18,6 +18,8 @@ static int verif_sink (void) { return 0; }
 #else
 #define VERIF_ERROR yaep_error
 #endif
+/* ghost globals are zero-initialised by CBMC's start-up code; harnesses make them arbitrary */
+#define HAVOC(x) do { __typeof__ (x) _nd; (x) = _nd; } while (0)
 #define VACUITY_CANARY() __CPROVER_assert (0, "VACUITY-CANARY reachable")
 #define VACUITY_CANARY_N(tag) __CPROVER_assert (0, "VACUITY-CANARY reachable " tag)
 #endif
